@@ -3,6 +3,7 @@
 PROPS = {
     "C11": dict(
         units=["GenPartitions"],
+        genextract="Partitions",
         props_files=["Props/C11.v"],
         driver="c11",
         rule="bounded-exhaustive box of (num_records, chunk_size, num_partitions, max_chunks) plus random large tuples "
@@ -17,6 +18,7 @@ PROPS = {
     ),
     "C09": dict(
         units=["GenBins"],
+        genextract="Bins",
         props_files=["Props/C09.v"],
         driver="c09",
         rule="checked-in indexes + indexes htslib writes for generated VCF/BCF (TBI; CSI min_shift 9..20; unused contigs; "
@@ -29,6 +31,7 @@ PROPS = {
     ),
     "C10": dict(
         units=["GenDtype"],
+        genextract="Dtype",
         props_files=["Props/C10.v"],
         driver="c10",
         rule="(a) boundary-heavy and random (lo,hi) for min_int_dtype; (b) VcfZarrSchema.generate on fake stores with "
@@ -42,6 +45,7 @@ PROPS = {
     ),
     "C13": dict(
         units=["GenOverlap"],
+        genextract="Overlap",
         props_files=["Props/C13.v"],
         driver="c13",
         rule="(a) generated partition interval sets (overlap / touch / nest / interleave / identical / disjoint chains, shuffled) "
